@@ -371,6 +371,7 @@ def pmap(fn, args, jobs=None, chunksize=1):
     import concurrent.futures as cf
     ctx = multiprocessing.get_context("fork")
     ex = cf.ProcessPoolExecutor(max_workers=jobs, mp_context=ctx, initializer=_init_worker)
+    clean = False
     try:
         # bounded submission window keeps memory flat for large case lists
         window = jobs * 4
@@ -386,6 +387,7 @@ def pmap(fn, args, jobs=None, chunksize=1):
                     break
                 pending.append(ex.submit(_pool_call, a))
             if not pending:
+                clean = True
                 break
             f = pending.pop(0)
             try:
@@ -398,7 +400,10 @@ def pmap(fn, args, jobs=None, chunksize=1):
                 raise HarnessError(val)
             yield val
     finally:
-        ex.shutdown(wait=False, cancel_futures=True)
+        # after a normal end every future has been collected: wait for the idle
+        # workers to leave (otherwise they print tracebacks about closed pipes
+        # later); after an error do not wait for anything
+        ex.shutdown(wait=clean, cancel_futures=True)
 
 
 def main_wrapper(fn):
